@@ -78,7 +78,7 @@ func cmdCheck(args []string) {
 	tier := fs.String("tier", "", "quick|thorough")
 	repo := fs.String("repo", "/repo", "repository directory")
 	verif := fs.String("verif", "/verif", "verif directory")
-	jobs := fs.Int("jobs", 16, "parallel queries")
+	jobs := fs.Int("jobs", 6, "parallel queries (each query races three solver processes)")
 	outDir := fs.String("out", "", "write evidence/replay below this directory instead of the verif directory (for trials on scratch copies)")
 	writeLedger := fs.Bool("write-ledger", false, "record obligation names for this property into ledger.json (unchanged tree only)")
 	fs.Parse(args)
@@ -94,9 +94,9 @@ func cmdCheck(args []string) {
 		os.Exit(2)
 	}
 	t0 := time.Now()
-	timeout, agree := 20, 1
+	timeout, agree := 30, 1
 	if *tier == "thorough" {
-		timeout, agree = 90, 2
+		timeout, agree = 120, 2
 	}
 	outBase := *verif
 	if *outDir != "" {
